@@ -144,9 +144,33 @@ GOOD = '({1,2,3,4,5,({"a","b",(["k":({6,7,}),]),}),"z",})'
 TORN_SHARES = (30, 500, 970)
 
 
+# texts in which the size pre-scan and the restore pass take different ways: junk behind a number (the pre-scan skips to the next
+# delimiter, the restore pass stops after one character), so that the restore pass meets a quote the pre-scan never saw as the
+# start of a string - with escapes and without a closing quote behind it, with text behind the end of the value
+CRAFTED = [b'([1:2x"a\\b,])', b'({1x"a,2,3,}) "', b'({1x"a\\",2,})', b'([1x"k\\":2,])', b'(/1x"a\\b,/)', b'(["a":1x"b\\c,])', b'({1,2x"abc,}) "tail', b'({({1x"a,}),2,}) "',
+           b'([1:({2x"a\\,}),])', b'({1.5x"a\\b,})', b'({-x"a\\b,})', b'({1x"a,2,3,})', b'([1x"a:2,3:4,]) "', b'(/1x"a,2,/) "', b'({1x"\\', b'([1:2x"\\', b'({0x"a\\\\\\",})']
+
+
 def with_fault(plan, k, info=None):
     q = plan.copy()
     j = int(q.opts()['c16_cycle'])
+    if k >= 40000:
+        # a crafted text; odd numbers: the same text as the value of a variable in a save file
+        text = CRAFTED[(k - 40000) // 2]
+        if (k - 40000) % 2 == 0:
+            q.cycles.append([send(0, 'do call /sv rv %s\r\n' % text.hex())])
+        else:
+            # (under the name of the first variable of the object's own save file)
+            lines = [l for l in (bytes.fromhex(info['textB']) if info and info.get('textB') else b'').split(b'\n') if l and not l.startswith(b'#') and b' ' in l]
+            if not lines:
+                q.cycles.append([send(0, 'do call /sv rv %s\r\n' % text.hex())])
+            else:
+                q.cycles.append(['writefile svd/d.o %s' % enc(b'#/sv.c\n' + lines[0].split(b' ')[0] + b' ' + text + b'\n'), send(0, 'do call /sv restd /svd/d\r\n')])
+        q.cycles.append([send(0, 'do call /sv rvraw %s\r\n' % GOOD)])
+        q.idle(2)
+        as_file = any(x.startswith('writefile svd/d.o') for x in q.cycles[-4])
+        q.opt('c16_fault', ('file' if as_file else 'value') + ':crafted:%d' % (k - 40000))
+        return q
     if k < 10000:
         # k < 5000: crash point of the second save (every mutating file call from number k % 1000 on fails);
         # 5000 <= k < 10000: a transient error, only that call fails.  The thousands digit chooses how much of a failing
@@ -225,6 +249,7 @@ def points(plan, res, tier, rng):
     if nv:
         per = info['per_value']
         pts += [20000 + x for x in range(nv * per)]
+    pts += [40000 + x for x in (range(2 * len(CRAFTED)) if tier != 'quick' else sorted(rng.sample(range(2 * len(CRAFTED)), 10)))]
     deepest = [x for x, d in enumerate(DEEP) if d[1] >= 60000 and d[0] in 'am']      # always: these are the ones that recurse furthest
     pts += [30000 + x for x in (range(len(DEEP)) if tier != 'quick' else sorted(set(deepest + rng.sample(range(len(DEEP)), 8))))]
     return pts
